@@ -537,6 +537,7 @@ Fixpoint chk_C08_evs (seen : list (N * addr)) (evs : list event) : bool * list (
       match e with
       | ECPoll c _ _ a => step c a
       | ECDrop c (Some a) => step c a
+      | EVtBad => (false, seen)       (* the harness saw a pinned object (the upstream of an adapter) at a second address *)
       | _ => chk_C08_evs seen rest
       end
   end.
